@@ -270,3 +270,33 @@ impl System {
         ensures r matches Ok(s) ==> stream_at(old(self), identifier) == Some(*s),
     { self.get_stream_mut(identifier) }
 }
+
+// ---- COMPOSITION harness (link pass 2): the runtime half of [C05.sim.update_stream] of units/replay_more/lemmas.rs -----------------
+// That lemma takes the runtime effect of an acknowledged UpdateStream as the spec function `rt_update_stream` over the statement's
+// catalogue (id -> CStream), "what [C06.update.stream(.maps)] says", cited by label. The harness calls the real System::update_stream
+// and proves exactly that, for the catalogue read off the RUNNING system: a stream's name is its `name` field, its topics component
+// is ANY function of its `topics` map (uninterpreted: the harness holds for every reading, in particular the one replay_more's
+// `abs_topic` fields describe — update_stream keeps the whole `topics` map object).
+// (vocabulary of units/replay_more/lemmas.rs, repeated word for word: CTopic, CStream, rt_update_stream)
+pub struct CTopic {
+    pub name: Name, pub compression: CompressionAlgorithm, pub expiry: IggyExpiry, pub max_size: MaxTopicSize, pub repl: Option<u8>,
+    pub parts: Set<u32>, pub groups: Map<u32, Name>,
+}
+pub struct CStream { pub name: Name, pub topics: Map<u32, CTopic> }
+pub open spec fn rt_update_stream(c: Map<u32, CStream>, sid: u32, name: Name) -> Map<u32, CStream> {
+    c.insert(sid, CStream { name: name, ..c[sid] })
+}
+pub uninterp spec fn rt_topics_view(topics: Map<u32, Topic>) -> Map<u32, CTopic>;
+pub open spec fn rt_abs_stream(s: Stream) -> CStream { CStream { name: s.name, topics: rt_topics_view(s.topics@) } }
+pub open spec fn rt_abs_streams(m: Map<u32, Stream>) -> Map<u32, CStream> { Map::new(m.dom(), |k: u32| rt_abs_stream(m[k])) }
+impl System {
+    // label: C05.link.replay_more.rt_update_stream
+    pub fn sim_update_stream(&mut self, session: &Session, id: &Identifier, name: &Name) -> (r: Result<(), IggyError>)
+        requires system_wf(old(self)),
+        ensures
+            r is Ok ==> (stream_of(old(self), id) matches Some(sid)
+                && rt_abs_streams(final(self).streams@) =~= rt_update_stream(rt_abs_streams(old(self).streams@), sid, *name)),
+            // a refused command is not journalled and leaves the catalogue alone
+            r is Err ==> rt_abs_streams(final(self).streams@) =~= rt_abs_streams(old(self).streams@),
+    { self.update_stream(session, id, name) }
+}
